@@ -299,6 +299,22 @@ impl<'de> Deserialize<'de> for E {
     }
 }
 
+// ---------------------------------------------------------------- () (zero-sized, `Copy`, no drop glue)
+//
+// `vec![(); n]` is O(1) for every `n` (std specialises it), so `TooDee::init(c, r, ())` can build arrays with up to
+// `usize::MAX` cells: the only way to run the crate's index arithmetic at the top of the `usize` range.  No ledger.
+
+impl Elem for () {
+    fn mk(_v: u32) -> Self {}
+    fn val(&self) -> u32 {
+        0
+    }
+    fn bump(&mut self, _by: u32) {}
+    fn ledger_tokens() -> String {
+        "- 0 0".to_string()
+    }
+}
+
 // ---------------------------------------------------------------- Z (zero-sized)
 
 #[derive(PartialEq, Eq, PartialOrd, Ord, Hash)]
